@@ -503,7 +503,8 @@ func (e *Env) ident(id *ast.Ident, hint types.Type) Val {
 	// range key of the loop the invariant belongs to: next index to be processed
 	if e.loop != nil && e.useCells {
 		if rs, ok := e.loop.stmt.(*ast.RangeStmt); ok {
-			if k, ok := rs.Key.(*ast.Ident); ok && k.Name == id.Name {
+			// "rangeidx" names the number of elements already processed when the loop has no (named) key
+			if k, ok := rs.Key.(*ast.Ident); (ok && k.Name == id.Name && k.Name != "_") || id.Name == "rangeidx" {
 				for _, in := range e.loop.header.Instrs {
 					if u, ok := in.(*ssa.UnOp); ok && u.Op == token.MUL {
 						if a, ok := u.X.(*ssa.Alloc); ok && a.Comment == "rangeindex" {
